@@ -347,9 +347,22 @@ func (c *wsConn) cancelCtx(req frame) {
 		return
 	}
 
+	if len(params) < 1 {
+		log.Errorf("%s: missing request id param", wsCancel)
+		return
+	}
+
 	var id interface{}
 	if err := json.Unmarshal(params[0].data, &id); err != nil {
 		log.Error("handle me:", err)
+		return
+	}
+
+	// ids are keyed in their normalized form; this also rejects values which
+	// cannot be ids (and cannot be used as map keys), like arrays and objects
+	id, err := normalizeID(id)
+	if err != nil {
+		log.Errorf("%s: invalid request id param: %s", wsCancel, err)
 		return
 	}
 
@@ -370,6 +383,11 @@ func (c *wsConn) handleChanMessage(frame frame) {
 	var params []param
 	if err := json.Unmarshal(frame.Params, &params); err != nil {
 		log.Error("failed to unmarshal channel id in xrpc.ch.val: %s", err)
+		return
+	}
+
+	if len(params) < 2 {
+		log.Errorf("%s: expected channel id and value params, got %d params", chValue, len(params))
 		return
 	}
 
@@ -399,6 +417,11 @@ func (c *wsConn) handleChanClose(frame frame) {
 	var params []param
 	if err := json.Unmarshal(frame.Params, &params); err != nil {
 		log.Error("failed to unmarshal channel id in xrpc.ch.val: %s", err)
+		return
+	}
+
+	if len(params) < 1 {
+		log.Errorf("%s: missing channel id param", chClose)
 		return
 	}
 
